@@ -67,9 +67,9 @@ inline void placeAll(const std::vector<int>& pieces, int wkMode, const Part& par
 }
 
 /** U-3: K+X v K, X any non-king piece of either colour. */
-inline void U3(int wkMode, const Part& part, const PosFn& f) {
+inline void U3(int wkMode, const Part& part, const PosFn& f, int typeMask = 0x7c /* bit t = piece type t (2 Q .. 6 P) */) {
     unsigned long long c = 0;
-    for (int x = 2; x <= 6; x++)
+    for (int x = 2; x <= 6; x++) if (typeMask & (1 << x))
         for (int col = 0; col < 2; col++)
             placeAll({orc::WK, orc::BK, orc::mk(col == 0, x)}, wkMode, part, f, c);
 }
@@ -94,11 +94,12 @@ inline std::string className(const std::vector<int>& pcs) {
 }
 
 /** U-EP: wK, wP on rank 5, bP adjacent having just double-pushed (ep set), one black slider, bK; and colour mirror. */
-inline void UEP(const Part& part, const PosFn& f, int sliderMask = 7 /*Q|R|B*/, bool withExtra = false) {
+inline void UEP(const Part& part, const PosFn& f, int sliderMask = 7 /*Q|R|B*/, int fileMask = 255, int sideMask = 3) {
     unsigned long long c = 0;
     static const int sliders[3] = {orc::BQ, orc::BR, orc::BB};
     for (int mirror = 0; mirror < 2; mirror++)
     for (int px = 0; px < 8; px++) for (int side = -1; side <= 1; side += 2) {
+        if (!(fileMask & (1 << px)) || !(sideMask & (side < 0 ? 1 : 2))) continue;
         int bx = px + side; if (bx < 0 || bx > 7) continue;
         for (int si = 0; si < 3; si++) { if (!(sliderMask & (1 << si))) continue;
         for (int wk = 0; wk < 64; wk++) for (int bk = 0; bk < 64; bk++) for (int sl = 0; sl < 64; sl++) {
